@@ -71,7 +71,28 @@ func checkOutgoing(c *wk.Ctx, idx int, e *rpcEnv, tag string, clockNanos func() 
 	if equal > 0 {
 		c.Viol("C10", idx, "msg_id-repeated/"+tag, fmt.Sprintf("%d of %d messages repeat the msg_id of the message written before them", equal, len(recv)), nil)
 	}
-	// ack coverage, at quiescence
+	// ack coverage, at quiescence: wait (bounded) for the logical condition "every content-related message named";
+	// only what is still missing after the client has had ample time AND is idle counts
+	for w := 0; w < 1000; w++ {
+		e.mu.Lock()
+		all := true
+		for id := range e.sentCont {
+			if !e.acked[id] {
+				all = false
+				break
+			}
+		}
+		e.mu.Unlock()
+		if all {
+			break
+		}
+		time.Sleep(10 * time.Millisecond)
+	}
+	e.mu.Lock()
+	for k := range e.acked {
+		acked[k] = true
+	}
+	e.mu.Unlock()
 	missing := 0
 	for id := range sent {
 		c.Count("c10.content_messages_sent", 1)
